@@ -426,4 +426,14 @@ pub mod http_verif_hooks {
             .await
             .map_err(|e| e.to_string())
     }
+
+    /// the per-connection handler behind `start_http_proxy_server`, for one accepted connection
+    pub async fn handle_http_proxy_connection(
+        stream: tokio::net::TcpStream,
+        client: std::sync::Arc<crate::client::Client>,
+    ) -> Result<(), String> {
+        super::handle_http_proxy_connection(stream, client)
+            .await
+            .map_err(|e| e.to_string())
+    }
 }
